@@ -1827,7 +1827,7 @@ def register_extractors(R, H, PAD):
 
     R.add(f"{FEX}:FeatureExtractor.get", prop="C10", variants=variants,
           raises={"DeprecationWarning": ("a-deprecated-bifurcation-feature-was-asked-for", lambda E, v, o: isinstance(v["feature"], str) and v["feature"].startswith("bifurcation_"))},
-          ensures=[("per-request-the-tree-evaluators-vector-or-one-zero-padded-row-per-tree-of-the-population(s)-lists-and-dicts-keep-order-and-keys", get_post),
+          ensures=[("per-request-the-tree-evaluators-vector-or-one-zero-padded-row-per-tree-of-the-population-or-populations-lists-and-dicts-keep-order-and-keys", get_post),
                    ("every-evaluator-asked-once-per-request-in-order-with-the-merged-keyword-arguments", get_calls)],
           notes="TreeFeatureExtractor, PopulationFeatureExtractor (1-3 trees) and PopulationsFeatureExtractor (1-2 populations, 2-3 trees) over ABSTRACT per-tree evaluators (any vector per (tree, request)); "
                 "single name, (name, kwargs) pair merged with keyword arguments (keyword arguments win), list form, dict form, deprecated names")
@@ -1913,7 +1913,7 @@ def register_extractors(R, H, PAD):
              "an-int", "None", "a-file-name", "a-list-of-trees"]
     R.add(f"{FEX}:extract_feature", prop="C10", variants={k: ef_setup(k) for k in KINDS}, options=dict(inline_calls=INLINE + POP_INLINE),
           raises={"TypeError": ("neither-a-tree-nor-a-population-nor-populations", lambda E, v, o: not (isinstance(v["obj"], Obj) and v["obj"].cls in (Tree_, Population, Populations)))},
-          ensures=[("the-extractor-of-the-argument's-kind-with-one-fresh-evaluator-per-tree-in-order", lambda E, v, o: built(E, v["result"], v["obj"], v["__trees__"])),
+          ensures=[("the-extractor-of-the-kind-of-the-argument-with-one-fresh-evaluator-per-tree-in-order", lambda E, v, o: built(E, v["result"], v["obj"], v["__trees__"])),
                    ("it-is-a-tree-a-population-or-populations", lambda E, v, o: isinstance(o["obj"], Obj) and o["obj"].cls in (Tree_, Population, Populations))],
           notes="trees of symbolic size; populations of 0-3 trees, populations of 1-2 populations; other argument kinds: TypeError")
     for cls, kinds, param in ((TreeFeatureExtractor, ["tree"], "tree"), (PopulationFeatureExtractor, ["population-of-0-trees", "population-of-2-trees"], "population"),
